@@ -505,6 +505,209 @@ def frame_append(df):
     return [made, stored, copies]
 
 
+# ----------------------------------------------------------------------------- schema.py: the routes to a schema's names
+
+
+def _names_route(node, obj):
+    """Where an expression takes the column names of the schema object `obj` (`self`, `schema`, `self._schema`)
+    from: 'columns' (the column objects as they are now), 'columnNames' (the accessor), 'iter' (iteration over the
+    object).  `list(…)` / `tuple(…)` / `set(…)` / `iter(…)` around it and `str(…)` around an element do not matter."""
+    while isinstance(node, ast.Call) and ast.unparse(node.func) in ("list", "tuple", "set", "iter", "sorted") and len(node.args) == 1 \
+            and not node.keywords:
+        if ast.unparse(node.func) == "sorted":
+            raise Shape("sorted names")
+        node = node.args[0]
+    u = ast.unparse(node)
+    if u == obj + ".column_names":
+        return "columnNames"
+    if u == obj:
+        return "iter"
+    if isinstance(node, (ast.ListComp, ast.GeneratorExp, ast.SetComp)) and len(node.generators) == 1:
+        g = node.generators[0]
+        if g.ifs or not isinstance(g.target, ast.Name):
+            raise Shape("filtered names")
+        v = g.target.id
+        e = node.elt
+        if isinstance(e, ast.Call) and ast.unparse(e.func) == "str" and len(e.args) == 1:
+            e = e.args[0]
+        src = ast.unparse(g.iter)
+        eu = ast.unparse(e)
+        if src == obj + ".columns" and eu == v + ".name":
+            return "columns"
+        if src == obj + ".column_names" and eu == v:
+            return "columnNames"
+        if src == obj and eu == v:
+            return "iter"
+    raise Shape("names expression %s" % u[:50])
+
+
+def _body(fn):
+    return [s for s in fn.body if not (isinstance(s, ast.Expr) and isinstance(s.value, ast.Constant))]
+
+
+def schema_column_names(sch):
+    """`RelationSchema.column_names`: computed from the column objects on every call, or kept on the instance.
+
+    Recognised: `return [column.name for column in self.columns]` (and equivalents); a caching decorator
+    (`cached_property`, `lru_cache`, `cache`: kept for ever); the memo
+    `x = <instance state>; if x is None [or <test on lengths>]: x = <instance state> = <fresh names>; return x`."""
+    fn = sch.func("column_names", "RelationSchema")
+    decos = [ast.unparse(d) for d in fn.decorator_list]
+    body = _body(fn)
+    caching = [d for d in decos if d.split("(")[0].split(".")[-1] in ("cached_property", "lru_cache", "cache")]
+    if caching:
+        if len(body) == 1 and isinstance(body[0], ast.Return) and _names_route(body[0].value, "self") == "columns":
+            return ["true", "true"]
+        raise Shape("cached column_names of another form")
+    if decos != ["property"]:
+        raise Shape("column_names decorated %s" % decos)
+    if len(body) == 1 and isinstance(body[0], ast.Return):
+        if _names_route(body[0].value, "self") == "columns":
+            return ["false", "true"]
+        raise Shape("column_names does not read self.columns")
+    if len(body) == 3 and isinstance(body[0], ast.Assign) and isinstance(body[1], ast.If) and isinstance(body[2], ast.Return):
+        x = ast.unparse(body[0].targets[0])
+        state = ast.unparse(body[0].value)
+        if not (len(body[0].targets) == 1 and isinstance(body[0].targets[0], ast.Name)
+                and (state.startswith("self.__dict__.get(") or state.startswith("getattr(self, ") or re.fullmatch(r"self\._\w+", state))):
+            raise Shape("memo read %s" % state[:40])
+        test = body[1].test
+        conds = test.values if isinstance(test, ast.BoolOp) and isinstance(test.op, ast.Or) else [test]
+        if ast.unparse(conds[0]) != "%s is None" % x or body[1].orelse or len(body[1].body) != 1:
+            raise Shape("memo test")
+        st = body[1].body[0]
+        if not (isinstance(st, ast.Assign) and x in [ast.unparse(tg) for tg in st.targets] and len(st.targets) == 2
+                and _names_route(st.value, "self") == "columns"):
+            raise Shape("memo store")
+        other = [ast.unparse(tg) for tg in st.targets if ast.unparse(tg) != x][0]
+        if not (other.startswith("self.__dict__[") or re.fullmatch(r"self\._\w+", other)):
+            raise Shape("memo store target %s" % other[:40])
+        r = body[2].value
+        if ast.unparse(r) not in (x, "list(%s)" % x, "%s[:]" % x, "%s.copy()" % x, "tuple(%s)" % x):
+            raise Shape("memo return")
+        env = {"len(%s)" % x: "(Int.ofNat kept.length)", "len(self.columns)": "(Int.ofNat cols.length)"}
+        stale = [to_lean(c, env) for c in conds[1:]]  # Untranslatable -> degraded
+        valid = "true" if not stale else "(!(decide (%s)))" % " ∨ ".join(stale)
+        return ["true", valid]
+    raise Shape("column_names body")
+
+
+def schema_iter(sch):
+    fn = sch.func("__iter__", "RelationSchema")
+    body = _body(fn)
+    if len(body) == 1 and isinstance(body[0], ast.Return):
+        r = _names_route(body[0].value, "self")
+    elif (len(body) == 1 and isinstance(body[0], ast.For) and len(body[0].body) == 1 and isinstance(body[0].body[0], ast.Expr)
+          and isinstance(body[0].body[0].value, ast.Yield) and isinstance(body[0].target, ast.Name) and not body[0].orelse):
+        v, src, y = body[0].target.id, ast.unparse(body[0].iter), ast.unparse(body[0].body[0].value.value)
+        if src == "self.columns" and y == v + ".name":
+            r = "columns"
+        elif src == "self.column_names" and y == v:
+            r = "columnNames"
+        else:
+            raise Shape("__iter__ loop")
+    elif len(body) == 1 and isinstance(body[0], ast.Expr) and isinstance(body[0].value, ast.YieldFrom):
+        r = _names_route(body[0].value.value, "self")
+    else:
+        raise Shape("__iter__ body")
+    if r == "iter":
+        raise Shape("__iter__ iterates itself")
+    return r
+
+
+def class_fields_route(row):
+    """`Row.create_class(schema)`: the assignment to `fields` that is in force for a RelationSchema when the class
+    is made (a later unconditional assignment replaces an earlier one)."""
+    fn = row.func("create_class", "Row")
+    route = None
+    for st in fn.body:
+        if isinstance(st, ast.Assign) and [ast.unparse(t) for t in st.targets] == ["fields"]:
+            route = _names_route(st.value, "schema")
+        elif isinstance(st, ast.If) and ast.unparse(st.test) == "isinstance(schema, RelationSchema)":
+            for s0 in st.body:
+                if isinstance(s0, ast.Assign) and [ast.unparse(t) for t in s0.targets] == ["fields"]:
+                    route = _names_route(s0.value, "schema")
+                elif isinstance(s0, ast.Return):
+                    raise Shape("return in the RelationSchema branch")
+        elif isinstance(st, ast.Return):
+            break
+    if route is None:
+        raise Shape("fields = …")
+    return route
+
+
+def validate_route(sch):
+    fn = sch.func("validate", "RelationSchema")
+    extra, loop = None, None
+    for st in fn.body:
+        if isinstance(st, ast.Assign) and ast.unparse(st.targets[0]) == "extra_fields":
+            v = st.value
+            if not (isinstance(v, ast.BinOp) and isinstance(v.op, ast.Sub) and ast.unparse(v.left) in ("set(data.keys())", "set(data)")):
+                raise Shape("extra_fields")
+            extra = _names_route(v.right, "self")
+        if isinstance(st, ast.For):
+            src = ast.unparse(st.iter)
+            if src == "self.columns":
+                loop = "columns"
+            else:
+                raise Shape("validate loops over %s" % src[:30])
+    if extra is None or loop is None:
+        raise Shape("validate: extra_fields / for column in self.columns")
+    if extra != loop:
+        raise Shape("validate reads the names two ways")
+    return extra
+
+
+def frame_names_route(df):
+    fn = df.func("column_names", "DataFrame")
+    rets = sorted((s for s in ast.walk(fn) if isinstance(s, ast.Return)), key=lambda s: s.lineno)
+    if len(rets) != 2:
+        raise Shape("DataFrame.column_names: two returns")
+    return _names_route(rets[1].value, "self._schema")
+
+
+def append_refresh(df):
+    """`DataFrame.append`: after validation, is the row factory re-made when its `_fields` are no longer the
+    schema's names?  [refreshes, route by which the names are read]"""
+    fn = df.func("append", "DataFrame")
+    for st in fn.body:
+        if isinstance(st, ast.If) and ast.unparse(st.test) == "isinstance(self._schema, RelationSchema)":
+            seen_validate = False
+            for s0 in st.body:
+                u = ast.unparse(s0)
+                if "validate(" in u and not isinstance(s0, ast.If):
+                    seen_validate = True
+                    continue
+                if isinstance(s0, ast.If) and "_row_factory" in ast.unparse(s0.test):
+                    t = s0.test
+                    if not (isinstance(t, ast.Compare) and len(t.ops) == 1 and isinstance(t.ops[0], ast.NotEq)):
+                        raise Shape("refresh test")
+                    a, b = t.left, t.comparators[0]
+                    if ast.unparse(b) == "self._row_factory._fields":
+                        a, b = b, a
+                    if ast.unparse(a) != "self._row_factory._fields":
+                        raise Shape("refresh test")
+                    route = _names_route(b, "self._schema")
+                    if s0.orelse or [ast.unparse(x) for x in s0.body] != ["self._row_factory = Row.create_class(self._schema)"]:
+                        raise Shape("refresh body")
+                    if not seen_validate:
+                        raise Shape("refresh before validation")
+                    return ["true", route]
+                if "_row_factory" in u:
+                    raise Shape("row factory statement %s" % u[:40])
+            return ["false", "columns"]
+    raise Shape("if isinstance(self._schema, RelationSchema)")
+
+
+PINNED_SCHEMA = {"names": ["false", "true"], "iter": "columns", "class": "iter", "validate": "columns", "frame": "columns",
+                 "refresh": ["true", "columns"]}
+
+
+def schema_routes(sch, row, df):
+    return {"names": schema_column_names(sch), "iter": schema_iter(sch), "class": class_fields_route(row),
+            "validate": validate_route(sch), "frame": frame_names_route(df), "refresh": append_refresh(df)}
+
+
 PINNED = {
     "c02.pyx.extract_loop": PINNED_LOOP,
     "c02.row.new": ["true", "true", "true"],
@@ -514,6 +717,7 @@ PINNED = {
     "c02.row.get": ["true", "index"],
     "c02.dataframe.init_dictionaries": PINNED_FRAME,
     "c02.dataframe.append": ["true", "true", "true"],
+    "c02.schema.routes": PINNED_SCHEMA,
 }
 
 # ----------------------------------------------------------------------------- text
@@ -614,3 +818,34 @@ def generate(o):
     t += "def appendCopiesSubclass : Bool := %s\n" % ap[2]
     t += "end Gen.DictCode\n"
     o.files["DictCode.lean"] = t
+    sch = Src("orso/schema.py")
+    rt = {}
+    for key, getter in (("names", lambda: schema_column_names(sch)), ("iter", lambda: schema_iter(sch)),
+                        ("class", lambda: class_fields_route(row)), ("validate", lambda: validate_route(sch)),
+                        ("frame", lambda: frame_names_route(df)), ("refresh", lambda: append_refresh(df))):
+        rt[key] = o.item("c02.schema.routes." + key, getter, PINNED_SCHEMA[key])
+    o.json["c02.schema.routes"] = rt
+    for key in PINNED_SCHEMA:
+        o.json.pop("c02.schema.routes." + key, None)
+    s = HEADER + "import OrsoVerif.Model.DictRow\n"
+    s += ("/-! How the code gets at the column names of a `RelationSchema` object (orso/schema.py `column_names`, `__iter__`,\n"
+          "`validate`; orso/row.py `create_class`; orso/dataframe.py `column_names`, `append`), lifted from the source\n"
+          "(harness/extractors/c02.py).  Model/DictSchema.lean assembles them as `codeCfg`. -/\n")
+    s += "set_option linter.unusedVariables false\nnamespace Gen.SchemaCode\nopen DictRow (IterVia Via)\n\n"
+    s += "/-- `RelationSchema.column_names` keeps its result on the instance (a memo, a caching decorator) -/\n"
+    s += "def schemaNamesKept : Bool := %s\n" % rt["names"][0]
+    s += "/-- (kept list, column names now) ↦ the kept list is handed out again (`true` when nothing revalidates it) -/\n"
+    s += "def schemaKeptValid (kept cols : List String) : Bool := %s\n" % rt["names"][1]
+    s += "/-- `RelationSchema.__iter__` -/\n"
+    s += "def schemaIterVia : IterVia := .%s\n" % rt["iter"]
+    s += "/-- `Row.create_class(schema)`: the assignment to `fields` in force when the class is made -/\n"
+    s += "def classFieldsVia : Via := .%s\n" % rt["class"]
+    s += "/-- `RelationSchema.validate`: the names the record's keys are compared with -/\n"
+    s += "def validateNamesVia : Via := .%s\n" % rt["validate"]
+    s += "/-- `DataFrame.column_names` on a frame bound to a RelationSchema -/\n"
+    s += "def frameNamesVia : Via := .%s\n" % rt["frame"]
+    s += "/-- `DataFrame.append`: `if self._row_factory._fields != <names>: self._row_factory = Row.create_class(self._schema)` -/\n"
+    s += "def appendRefreshesFactory : Bool := %s\n" % rt["refresh"][0]
+    s += "def appendRefreshVia : Via := .%s\n" % rt["refresh"][1]
+    s += "end Gen.SchemaCode\n"
+    o.files["SchemaCode.lean"] = s
